@@ -15,6 +15,17 @@ pub fn run(id: &str, tier: &str) -> i32 {
     if st != 0 {
         return st;
     }
+    crate::selftest::note_fingerprint_quality();
+    let level = match id {
+        "C09" | "C10" | "C11" | "C13" => "fault_enumeration",
+        "C15" | "C18" => "exploration",
+        _ => "model_checking",
+    };
+    // (the file-system checks only: their calls into the library take milliseconds; the codec / SD sweeps wrap whole
+    // ranges of cases in one panic guard and have their own traffic horizon)
+    if matches!(id, "C01" | "C02" | "C03" | "C04" | "C05" | "C06" | "C07" | "C09" | "C10" | "C11" | "C16") {
+        crate::watchdog::start(id, tier, level);
+    }
     match id {
         "C01" => c01::run(tier),
         "C06" => dirprops::run_c06(tier),
